@@ -60,7 +60,16 @@ def run_pair(case):
         # directed cut: the cut is placed a few minutes after the j-th fill of run A (look-ahead matters around fills and liquidations)
         j, delta = case['cut_after'][:2]
         fills = [e for e in r1['trace'] if e['ev'] == 'executed' and e.get('after') == 'EXECUTED']
-        if len(case['cut_after']) > 2 and case['cut_after'][2]:
+        if len(case['cut_after']) > 2 and case['cut_after'][2] == 'tie':
+            # prefer fills in a minute that closes exactly where it opened (its colour is a tie) or touches an order exactly at an extreme
+            def tie_minute(e):
+                i = int((e['t'] - T0) // MIN) - 1
+                rows = spec['candles'].get(e['sym'])
+                if rows is None or not (0 < i < len(rows)):
+                    return False
+                return rows[i][2] == rows[i - 1][2]  # close == (normalised) open = previous close
+            fills = [e for e in fills if tie_minute(e)] or fills
+        elif len(case['cut_after']) > 2 and case['cut_after'][2]:
             # prefer the fills of liquidation orders when there are any
             liq_ords = {e['ord'] for e in r1['trace'] if e['ev'] == 'submit' and e.get('phase') == 'liquidation'}
             fills = [e for e in fills if e['ord'] in liq_ords] or fills
@@ -144,7 +153,7 @@ def run_shard(acc, shard, nshards, seed, tier):
     known = runner.known_signatures('C01')
 
     general = sessions.session(minutes=(60, 150) if tier == 'quick' else (60, 400), align_len=True, program=dict(busy=True), data_only_symbol=True,
-                               modes=('cross', 'isolated'), leverages=(1, 2, 5, 10, 25, 50, 100))
+                               modes=('cross', 'isolated'), leverages=(1, 2, 5, 10, 25, 50, 100), candle_opts=dict(spin_ps=(0, 0, 3)))
     # held, highly leveraged isolated positions with far resting exits: liquidations inside the prefix
     levered = sessions.session(minutes=(60, 150) if tier == 'quick' else (60, 400), kinds=('futures',), modes=('isolated',), leverages=(20, 50, 100, 125),
                                tfs=('3m', '5m', '15m', '1m'), max_data=1, warmup=(False,), align_len=True, structural=False,
@@ -161,7 +170,7 @@ def run_shard(acc, shard, nshards, seed, tier):
         else:
             cut = draw(st.integers(2, n - 2))
         tails, styles = {}, {}
-        cut_after = draw(st.sampled_from([None, None, (0, 0), (1, 1), (2, 0), (3, 2), (5, 1), (1, 4), (0, 2), (7, 0), (0, 0, True), (1, 1, True), (0, 2, True), (2, 0, True)]))
+        cut_after = draw(st.sampled_from([None, None, (0, 0), (1, 1), (2, 0), (3, 2), (5, 1), (1, 4), (0, 2), (7, 0), (0, 0, True), (1, 1, True), (0, 2, True), (2, 0, True), (0, 0, 'tie'), (1, 0, 'tie'), (2, 0, 'tie'), (3, 0, 'tie')]))
         for s in spec['candles']:
             tick = spec['ticks'][s]
             style = draw(st.sampled_from(['continue', 'jump']))
@@ -190,6 +199,6 @@ def run_shard(acc, shard, nshards, seed, tier):
         return dict(key=key, nontrivial=nt, classes=cl, violations=vios,
                     sample=dict(cfg=spec['cfg'], routes=spec['routes'], data=spec['data'], fast=spec['fast'], minutes=spec['n'], cut=info['cut'],
                                 prefix_events=info['prefix_events'], fills_in_prefix=info['fills']) if nt else None)
-    runner.hyp_search(acc, cases(), chk, 10 if tier == 'quick' else 1200, seed, tier, known=known, shrink_calls=12, max_shrink_sigs=1)
-    runner.hyp_search(acc, cases(base=levered), lambda c: dict(chk(c), sub='levered-isolated-sessions'), 20 if tier == 'quick' else 600, seed + 3, tier,
+    runner.hyp_search(acc, cases(), chk, 24 if tier == 'quick' else 1200, seed, tier, known=known, shrink_calls=12, max_shrink_sigs=1)
+    runner.hyp_search(acc, cases(base=levered), lambda c: dict(chk(c), sub='levered-isolated-sessions'), 24 if tier == 'quick' else 600, seed + 3, tier,
                       known=known, shrink_calls=12, max_shrink_sigs=1)
